@@ -258,19 +258,32 @@ def run_model(cases, workdir, shards=16, dual=False):
 # Rust side
 
 def build_harness(f32=False):
+    """Builds the harness against /repo's working tree (or, for experiments with scratch worktrees only,
+    against $VERIF_REPO: a private copy of harness/ with the dependency path rewritten)."""
+    repo = os.environ.get("VERIF_REPO", "/repo")
+    hdir = os.path.join(ROOT, "harness")
+    target = TARGET
+    if repo != "/repo":
+        tag = hashlib.sha1(repo.encode()).hexdigest()[:10]
+        hdir = os.path.join(CACHE, "harness_alt_" + tag)
+        target = os.path.join(CACHE, "target_alt_" + tag)
+        shutil.rmtree(hdir, ignore_errors=True)
+        shutil.copytree(os.path.join(ROOT, "harness"), hdir, ignore=shutil.ignore_patterns("target"))
+        toml = open(os.path.join(hdir, "Cargo.toml")).read().replace('path = "/repo"', 'path = "%s"' % repo)
+        open(os.path.join(hdir, "Cargo.toml"), "w").write(toml)
     env = dict(os.environ)
-    env["CARGO_TARGET_DIR"] = TARGET + ("_f32" if f32 else "")
+    env["CARGO_TARGET_DIR"] = target + ("_f32" if f32 else "")
     env["CARGO_NET_OFFLINE"] = "true"
     env["RUSTFLAGS"] = "--cfg corgi_verif"
     cmd = ["cargo", "build", "--offline", "--quiet"]
     if f32:
         cmd += ["--features", "f32"]
-    r = sh(cmd, cwd=os.path.join(ROOT, "harness"), env=env)
+    r = sh(cmd, cwd=hdir, env=env)
     hook = True
     if r.returncode != 0:
         # fall back to a build without the hook (the tree may not compile with it)
         env["RUSTFLAGS"] = ""
-        r2 = sh(cmd, cwd=os.path.join(ROOT, "harness"), env=env)
+        r2 = sh(cmd, cwd=hdir, env=env)
         if r2.returncode != 0:
             raise RuntimeError("harness build failed:\n" + r.stdout[-3000:])
         hook = False
@@ -362,7 +375,7 @@ def audit_source():
     """informational source audit of the non-BLAS build (C08, C18): constructs that could mutate a shared
     buffer or leak past Rc; reported in the evidence, never a verdict by itself"""
     hits = []
-    src = "/repo/src"
+    src = os.path.join(os.environ.get("VERIF_REPO", "/repo"), "src")
     for root, _, files in os.walk(src):
         for f in sorted(files):
             if not f.endswith(".rs") or f == "blas.rs":
@@ -447,7 +460,8 @@ def main():
     t_start = time.time()
     spec = props.PROPS[prop]
     rng = random.Random(args.seed * 1000003 + int(prop[1:]))
-    workdir = os.path.join(CACHE, "run", prop)
+    workdir = os.path.join(CACHE, "run", prop + ("_" + hashlib.sha1(os.environ["VERIF_REPO"].encode()).hexdigest()[:8]
+                                                  if os.environ.get("VERIF_REPO") else ""))
     shutil.rmtree(workdir, ignore_errors=True)
     os.makedirs(workdir, exist_ok=True)
     os.makedirs(REPLAYS, exist_ok=True)
@@ -623,7 +637,7 @@ def main():
         "wall_s": round(time.time() - t_start, 1),
         "violations": len(violations),
     }
-    if not args.replay and not args.no_coq:
+    if not args.replay and not args.no_coq and not os.environ.get("VERIF_REPO"):
         json.dump(ev, open(os.path.join(EVIDENCE, "%s.json" % prop), "w"), indent=1)
 
     for path, suffix in violations:
